@@ -1,6 +1,7 @@
 //@include prelude/head.rs
 //@include prelude/verus_open.rs
 //@include prelude/chrono.rs
+//@include prelude/parse_spec.rs
 //@include prelude/chrono_text.rs
 //@include prelude/types.rs
 //@include prelude/ax.rs
